@@ -173,6 +173,18 @@ class Ctx:
     def obligation(self, name: str, kind: str, ok: bool, detail: str = "") -> None:
         self.obligations.append({"name": name, "kind": kind, "ok": bool(ok), "detail": _short(detail, 600)})
 
+    def guard(self, name: str, fn: Callable[..., Any], *args: Any) -> None:
+        """Run a tie/monitor; if it cannot be evaluated (it raises), that is a broken obligation —
+        handled by the verdict rule (search first) — not an infrastructure error."""
+        try:
+            fn(self, *args)
+        except DriverError:
+            raise
+        except Exception as e:
+            import traceback
+            tb = traceback.format_exc().strip().splitlines()[-3:]
+            self.obligation(f"{name} (could not be evaluated: {type(e).__name__}: {e})", "correspondence", False, " | ".join(tb))
+
     def tie_broken(self, name: str, case: Any, expected: Any, actual: Any) -> None:
         if len(self.broken_inputs) < 50:
             self.broken_inputs.append(
